@@ -73,7 +73,7 @@ Section Protocol.
   Variable fl : flags.
   Variable s : str.
   Hypothesis Hwf : forall p m, 0 <= p <= slen s -> find s p = Some m ->
-                               p <= ms m /\ ms m <= me m /\ me m <= slen s.
+                               0 <= ms m /\ ms m <= me m /\ me m <= slen s.
 
   Lemma slen_nonneg : 0 <= slen s.
   Proof. unfold slen. lia. Qed.
